@@ -7,6 +7,7 @@ import (
 	"os"
 	"path/filepath"
 	"sort"
+	"strconv"
 	"time"
 
 	"verifsim/simrt"
@@ -209,6 +210,14 @@ func RunWorker(o *WorkerOpts) *WorkerStats {
 	}
 	if o.MaxViol == 0 {
 		o.MaxViol = 2
+	}
+	if e := os.Getenv("VERIF_ENGINE"); e != "" {
+		// development aid: run only the n-th engine of the property
+		if i, err := strconv.Atoi(e); err == nil && i >= 0 && i < len(spec.Engines) {
+			cp := *spec
+			cp.Engines = []Engine{spec.Engines[i]}
+			spec = &cp
+		}
 	}
 	a := newAgg(o)
 	iter := uint64(0)
